@@ -336,6 +336,22 @@ inline void run_c18(Chooser& c, vf::Stats& st, bool record, std::string& text) {
             // key_tuple(string_view) constructor agrees with the tuple it denotes
             key_tuple from_sv{std::string_view(a.witness)};
             if (!(from_sv == ka)) { throw Fail{"key_tuple_ctor", "key_tuple(string_view) != (slice,len) for " + tup_str(a)}; }
+            // the cursor's bounds (interface_iscan.h): min() is below or equal to, max() above or equal to every tuple a node can store, and the
+            // right-to-left start tuple of a next layer {0xFF*8, 10} is strictly above every storable tuple, the link {0xFF*8, 9} included
+            {
+                ++st.checks;
+                const key_tuple above(~key_slice_type{0}, static_cast<key_length_type>(sizeof(key_slice_type) + 2));
+                for (const key_tuple* k : {&ka, &kb, &kd}) {
+                    if (!(*k < above) || !(above > *k) || above <= *k || *k >= above) {
+                        throw Fail{"key_tuple_order", "the right-to-left start tuple {0xFF*8, 10} is not above a storable tuple; " + text};
+                    }
+                    if (*k < key_tuple::min() || *k > key_tuple::max()) {
+                        throw Fail{"key_tuple_order", "key_tuple::min()/max() do not bracket a storable tuple; " + text};
+                    }
+                }
+                const key_tuple ff_link(~key_slice_type{0}, static_cast<key_length_type>(sizeof(key_slice_type) + 1));
+                if (!(ff_link < above)) { throw Fail{"key_tuple_order", "{0xFF*8, 10} is not above the link {0xFF*8, 9}"}; }
+            }
             nontrivial = decided_by_length(a, b) || decided_by_length(b, d);
             if (nontrivial) { st.cls("tuple_decided_by_length"); }
             break;
